@@ -144,7 +144,7 @@ pub fn check_event(ctx: &mut Ctx, wires: &Wires, pads: &Pads, rots: &[usize], wh
 }
 
 fn run(ctx: &mut Ctx) {
-    let m = Model::load(REPO);
+    let m = Model::load(&repo_root());
     let thorough = !ctx.quick();
     // ---- (a) wire deconvolution placements
     let n = ctx.tier.pick(360, 12_000);
